@@ -2,6 +2,7 @@
 //! profirust code (path dependency on /repo).  One sub-command per driver; every driver writes
 //! an ndjson event log that TLC validates against a Trace*.tla specification.
 mod codec;
+mod dp;
 mod ring;
 mod single;
 mod util;
@@ -20,6 +21,7 @@ fn main() {
     match cmd.as_str() {
         "codec" => codec::run(&args),
         "ring" => ring::run(&args),
+        "dp" => dp::run(&args),
         "single" => single::run(&args),
         _ => {
             eprintln!("usage: pbv <codec|...> --out FILE --seed N --tier quick|thorough");
